@@ -1,7 +1,11 @@
 /-
-C09 — classification and year-range theorems.
+C09 — classification and year-range theorems; the typed value of every field kind of the grammar
+(`single_typed`, `wsSep_typed`, `copyright_typed`, `license_typed`, `formatted_typed`, `extra_typed`).
 -/
 import DebInspector.Props.C09
+import DebInspector.Proofs.Splitlines
+import DebInspector.Proofs.SplitJoin
+import DebInspector.Proofs.VersionPrint
 
 namespace Props.C09
 open Py Model.Deb822 Model.Copyright
@@ -87,5 +91,698 @@ theorem yearSpec_isYearRange (t : Str) (h : Dep5.isYearSpec t = true) : isYearRa
   have hany : t.any isDigitU = true := by
     rw [List.any_eq_true]; exact ⟨d, hd, (digit_facts hdig).1⟩
   simp only [hne', hp, hany, Bool.not_false, Bool.and_self, Bool.or_true, Bool.true_and]
+
+end Props.C09
+
+/-! ## the field converters on the grammar -/
+
+namespace Props.C09
+open Py Model.Debcon Model.Copyright Props.Dep5 Proofs.Splitlines
+
+/-! ### continuation lines of the grammar decode to what they spell -/
+
+theorem plain_noB (s : Str) (h : plain s = true) : NoB s := by
+  intro c hc
+  have := List.all_eq_true.mp h c hc
+  simp only [Bool.and_eq_true, Bool.not_eq_true'] at this
+  exact this.1
+
+theorem rstrip_of_lastNonspace (s : Str) (hne : s ≠ []) (h : lastP isSpace s = false) : rstrip s = s := by
+  apply rstrip_of_last
+  induction s with
+  | nil => exact absurd rfl hne
+  | cons c cs ih =>
+    cases cs with
+    | nil => simpa [lastP] using h
+    | cons d ds => simpa [lastP] using ih (by simp) (by simpa [lastP] using h)
+
+structure TFacts (l : TLine) : Prop where
+  rawNoB : NoB (rawLine l)
+  rawNe : rawLine l ≠ []
+  dec : decLine (rawLine l) = decodeLine l
+
+theorem tline_facts (l : TLine) (h : tlineOk l = true) : TFacts l := by
+  unfold tlineOk at h
+  have hspB : isBoundary ' ' = false := by decide
+  have hdotB : isBoundary '.' = false := by decide
+  match hk : l.kind with
+  | 0 =>
+    rw [hk] at h
+    simp only [Bool.and_eq_true, Bool.not_eq_true', List.isEmpty_eq_false_iff, trimmed] at h
+    obtain ⟨⟨⟨hne, hpl⟩, ⟨hh, hl⟩⟩, hdot⟩ := h
+    have hraw : rawLine l = ' ' :: l.content := by simp [rawLine, hk]
+    refine ⟨?_, by rw [hraw]; simp, ?_⟩
+    · rw [hraw]
+      intro c hc
+      rcases List.mem_cons.mp hc with rfl | hc
+      · exact hspB
+      · exact plain_noB _ hpl c hc
+    · rw [hraw]
+      have hnb : isBlank l.content = false := isBlank_of_head hh hne
+      have hr : rstrip l.content = l.content := rstrip_of_lastNonspace _ hne hl
+      have hsb : isBlank (' ' :: l.content) = false := by rw [isBlank_cons, hnb]; simp
+      have e1 : rstrip (' ' :: l.content) = ' ' :: l.content := by rw [rstrip_cons_of_nonblank _ _ hsb, hr]
+      cases hc : l.content with
+      | nil => exact absurd hc hne
+      | cons c cs =>
+        rw [hc] at hh hdot e1 hr
+        have hcs : isSpace c = false := by simpa [headP] using hh
+        have hcsp : c ≠ ' ' := by intro e; subst e; revert hcs; decide
+        have hcd : c ≠ '.' := by simpa [headP] using hdot
+        unfold decLine
+        simp only [e1]
+        have hsp : isSpace ' ' = true := by decide
+        simp [startsWith, hcsp, hcd, strip, lstrip, hcs, hr, decodeLine, hk, hc, hsp]
+  | 1 =>
+    rw [hk] at h
+    have hraw : rawLine l = [' ', '.'] := by simp [rawLine, hk]
+    refine ⟨?_, by rw [hraw]; simp, ?_⟩
+    · rw [hraw]; intro c hc; simp at hc; rcases hc with rfl | rfl <;> decide
+    · rw [hraw]; simp [decodeLine, hk]; decide
+  | n + 2 =>
+    have hk2 : l.kind = 2 := by
+      rw [hk] at h
+      match n, h with
+      | 0, _ => exact hk
+      | _ + 1, h => simp at h
+    rw [hk2] at h
+    simp only [Bool.and_eq_true, Bool.not_eq_true', List.isEmpty_eq_false_iff] at h
+    obtain ⟨⟨hne, hpl⟩, hl⟩ := h
+    have hraw : rawLine l = ' ' :: ' ' :: l.content := by simp [rawLine, hk2]
+    refine ⟨?_, by rw [hraw]; simp, ?_⟩
+    · rw [hraw]
+      intro c hc
+      simp only [List.mem_cons] at hc
+      rcases hc with rfl | rfl | hc
+      · exact hspB
+      · exact hspB
+      · exact plain_noB _ hpl c hc
+    · rw [hraw]
+      have hr : rstrip l.content = l.content := rstrip_of_lastNonspace _ hne hl
+      have hnb : isBlank l.content = false := by
+        cases hb : isBlank l.content with
+        | false => rfl
+        | true => have := (rstrip_eq_nil_iff _).mpr hb; rw [hr] at this; exact absurd this hne
+      have h1 : isBlank (' ' :: l.content) = false := by rw [isBlank_cons, hnb]; simp
+      have h2 : isBlank (' ' :: ' ' :: l.content) = false := by rw [isBlank_cons, h1]; simp
+      have e1 : rstrip (' ' :: ' ' :: l.content) = ' ' :: ' ' :: l.content := by
+        rw [rstrip_cons_of_nonblank _ _ h2, rstrip_cons_of_nonblank _ _ h1, hr]
+      unfold decLine
+      simp only [e1]
+      simp [startsWith, decodeLine, hk2]
+
+
+theorem joinNl_eq (ls : List Str) : Dep5.joinNl ls = Model.Debcon.joinNl ls := by
+  induction ls with
+  | nil => rfl
+  | cons l ls ih =>
+    cases ls with
+    | nil => rfl
+    | cons m r => simp only [Dep5.joinNl, Model.Debcon.joinNl, ih]
+
+theorem dropLastEmpty_id (ls : List Str) (h : ∀ l ∈ ls.getLast?, l ≠ []) : dropLastEmpty ls = ls := by
+  induction ls with
+  | nil => rfl
+  | cons l ls ih =>
+    cases ls with
+    | nil =>
+      have := h l (by simp)
+      have : l.isEmpty = false := by cases l <;> simp_all
+      simp [dropLastEmpty, this]
+    | cons m r =>
+      simp only [dropLastEmpty]
+      rw [ih (fun x hx => h x (by simpa [List.getLast?_cons_cons] using hx))]
+
+/-- the lines of a value: its first line and the continuation lines as written -/
+theorem splitlines_value (first : Str) (conts : List TLine) (hf : NoB first) (hfne : first ≠ [])
+    (hc : ∀ l ∈ conts, TFacts l) :
+    splitlines (Model.Debcon.joinNl (first :: conts.map rawLine)) = first :: conts.map rawLine := by
+  rw [splitlines_joinNl _ (by
+    intro l hl
+    rcases List.mem_cons.mp hl with rfl | hl
+    · exact hf
+    · simp only [List.mem_map] at hl
+      obtain ⟨t, ht, rfl⟩ := hl
+      exact (hc t ht).rawNoB)]
+  apply dropLastEmpty_id
+  intro l hl
+  have hm : l ∈ first :: conts.map rawLine := List.mem_of_getLast? hl
+  rcases List.mem_cons.mp hm with rfl | hm
+  · exact hfne
+  · simp only [List.mem_map] at hm
+    obtain ⟨t, ht, rfl⟩ := hm
+    exact (hc t ht).rawNe
+
+theorem map_decLine_raw (conts : List TLine) (hc : ∀ l ∈ conts, TFacts l) :
+    (conts.map rawLine).map decLine = conts.map decodeLine := by
+  rw [List.map_map]
+  apply List.map_congr_left
+  intro l hl
+  exact (hc l hl).dec
+
+theorem strip_trimmed (s : Str) (h : trimmed s = true) : strip s = s := by
+  simp only [trimmed, Bool.and_eq_true, Bool.not_eq_true'] at h
+  cases hs : s with
+  | nil => rfl
+  | cons c cs =>
+    rw [hs] at h
+    have := strip_core [] (c :: cs) [] (by simp) (by simp) h.1 (by
+      have hl := h.2
+      clear h hs
+      induction cs generalizing c with
+      | nil => simpa [lastP] using hl
+      | cons d ds ih => simpa [lastP] using ih d (by simpa [lastP] using hl))
+    simpa using this
+
+/-- the first line of a text block (a paragraph line) stripped is its content; the others decode -/
+theorem fromFormattedLines_block (conts : List TLine) (hne : conts ≠ []) (hb : blockOk conts = true) :
+    fromFormattedLines (conts.map rawLine) = Model.Debcon.joinNl (conts.map decodeLine) ∧
+    headP isSpace (Model.Debcon.joinNl (conts.map decodeLine)) = false ∧
+    Model.Debcon.joinNl (conts.map decodeLine) ≠ [] := by
+  simp only [blockOk, Bool.and_eq_true, List.all_eq_true] at hb
+  obtain ⟨⟨hall, hhead⟩, _⟩ := hb
+  have hfacts : ∀ l ∈ conts, TFacts l := fun l hl => tline_facts l (hall l hl)
+  cases conts with
+  | nil => exact absurd rfl hne
+  | cons t ts =>
+    have hk : t.kind = 0 := by simpa using hhead
+    have htl := hall t (by simp)
+    unfold tlineOk at htl
+    rw [hk] at htl
+    simp only [Bool.and_eq_true, Bool.not_eq_true', List.isEmpty_eq_false_iff] at htl
+    obtain ⟨⟨⟨hcne, _⟩, htrim⟩, _⟩ := htl
+    have hraw : rawLine t = ' ' :: t.content := by simp [rawLine, hk]
+    have hdec : decodeLine t = t.content := by simp [decodeLine, hk]
+    have hstrip : strip (rawLine t) = t.content := by
+      rw [hraw]
+      have := strip_trimmed t.content htrim
+      have hsp : isSpace ' ' = true := by decide
+      simp only [strip, lstrip, hsp, if_true] at this ⊢
+      exact this
+    have hhd : headP isSpace t.content = false := by
+      simp only [trimmed, Bool.and_eq_true, Bool.not_eq_true'] at htrim; exact htrim.1
+    refine ⟨?_, ?_, ?_⟩
+    · simp only [List.map_cons, fromFormattedLines, hstrip, hdec]
+      rw [map_decLine_raw ts (fun l hl => hfacts l (by simp [hl]))]
+    · simp only [List.map_cons, hdec]
+      cases hc : t.content with
+      | nil => exact absurd hc hcne
+      | cons c cs =>
+        rw [hc] at hhd
+        cases ts <;> simpa [Model.Debcon.joinNl, headP] using hhd
+    · simp only [List.map_cons, hdec]
+      cases hc : t.content with
+      | nil => exact absurd hc hcne
+      | cons c cs => cases ts <;> simp [Model.Debcon.joinNl]
+
+
+theorem joinNl_ne_nil' (l : Str) (ls : List Str) (h : l ≠ []) : Model.Debcon.joinNl (l :: ls) ≠ [] := by
+  cases ls with
+  | nil => simpa [Model.Debcon.joinNl] using h
+  | cons m ms => cases l <;> simp_all [Model.Debcon.joinNl]
+
+/-- **license fields**: the short name is the first line, the text the decoded continuation lines -/
+theorem license_typed (f : Field) (hk : f.kind = 3) (h : fieldOk f = true) :
+    fromValue "LicenseField" (some (Model.Debcon.joinNl (f.first :: f.conts.map rawLine))) = expectedFV f := by
+  simp only [fieldOk, hk, Bool.and_eq_true, Bool.not_eq_true', List.isEmpty_eq_false_iff] at h
+  obtain ⟨⟨⟨_, hpl⟩, htrim⟩, hfne, hblock⟩ := h
+  have hbo := hblock
+  simp only [blockOk, Bool.and_eq_true, List.all_eq_true] at hbo
+  have hfacts : ∀ l ∈ f.conts, TFacts l := fun l hl => tline_facts l (hbo.1.1 l hl)
+  have hv : (Model.Debcon.joinNl (f.first :: f.conts.map rawLine)).isEmpty = false := by
+    have := joinNl_ne_nil' f.first (f.conts.map rawLine) hfne
+    cases hj : Model.Debcon.joinNl (f.first :: f.conts.map rawLine) with
+    | nil => exact absurd hj this
+    | cons _ _ => rfl
+  have hsl := splitlines_value f.first f.conts (plain_noB _ hpl) hfne hfacts
+  have hname : strip f.first = f.first := strip_trimmed _ htrim
+  simp only [fromValue, String.reduceEq, if_false, Option.getD_some, expectedFV, hk, licenseFromValue,
+    descriptionFromValue, lineSeparated, hv, Bool.false_eq_true, hsl, hname]
+  cases hc : f.conts with
+  | nil => simp
+  | cons t ts =>
+    rw [hc] at hblock
+    obtain ⟨h1, h2, h3⟩ := fromFormattedLines_block (t :: ts) (by simp) hblock
+    have hie : (Model.Debcon.joinNl ((t :: ts).map decodeLine)).isEmpty = false := by
+      cases hj : Model.Debcon.joinNl ((t :: ts).map decodeLine) with
+      | nil => exact absurd hj h3
+      | cons _ _ => rfl
+    simp only [List.map_cons, List.isEmpty_cons, Bool.false_eq_true, if_false, Option.map_some] at h1 ⊢
+    rw [h1]
+    simp only [List.map_cons] at hie h2
+    simp only [hie, Bool.false_eq_true, if_false, lstrip_of_head h2, joinNl_eq]
+
+/-- **formatted-text fields** (Comment, Source, Disclaimer), as `from_fields` hands them over
+(left-stripped): the text is the first line, if any, and the decoded continuation lines -/
+theorem formatted_typed (f : Field) (hk : f.kind = 4) (h : fieldOk f = true) :
+    fromValue "FormattedTextField" (some (lstrip (Model.Debcon.joinNl (f.first :: f.conts.map rawLine)))) = expectedFV f := by
+  simp only [fieldOk, hk, Bool.and_eq_true, Bool.not_eq_true', Bool.or_eq_true, List.isEmpty_eq_false_iff] at h
+  obtain ⟨⟨⟨_, hpl⟩, htrim⟩, hblock, hsome⟩ := h
+  have hbo := hblock
+  simp only [blockOk, Bool.and_eq_true, List.all_eq_true] at hbo
+  have hfacts : ∀ l ∈ f.conts, TFacts l := fun l hl => tline_facts l (hbo.1.1 l hl)
+  by_cases hfe : f.first = []
+  · -- the value starts on the first continuation line
+    have hcne : f.conts ≠ [] := by
+      rcases hsome with h | h
+      · exact absurd hfe h
+      · exact h
+    cases hc : f.conts with
+    | nil => exact absurd hc hcne
+    | cons t ts =>
+      rw [hc] at hblock hfacts
+      obtain ⟨h1, h2, h3⟩ := fromFormattedLines_block (t :: ts) (by simp) hblock
+      have hk0 : t.kind = 0 := by
+        simp only [blockOk, Bool.and_eq_true] at hblock
+        simpa using hblock.1.2
+      have hraw : rawLine t = ' ' :: t.content := by simp [rawLine, hk0]
+      have htok := hbo.1.1 t (by rw [hc]; simp)
+      unfold tlineOk at htok
+      rw [hk0] at htok
+      simp only [Bool.and_eq_true, Bool.not_eq_true', List.isEmpty_eq_false_iff, trimmed] at htok
+      obtain ⟨⟨⟨hcne', hcpl⟩, ⟨hch, _⟩⟩, _⟩ := htok
+      -- left-stripping removes the line break and the indentation of the first continuation line
+      have hl : lstrip (Model.Debcon.joinNl ([] :: (t :: ts).map rawLine)) =
+          Model.Debcon.joinNl (t.content :: ts.map rawLine) := by
+        have hnl : isSpace '\n' = true := by decide
+        have hsp : isSpace ' ' = true := by decide
+        have e : Model.Debcon.joinNl ([] :: (t :: ts).map rawLine) = '\n' :: ' ' :: Model.Debcon.joinNl (t.content :: ts.map rawLine) := by
+          cases ts <;> simp [Model.Debcon.joinNl, hraw]
+        rw [e]
+        simp only [lstrip, hnl, hsp, if_true]
+        apply lstrip_of_head
+        cases hcc : t.content with
+        | nil => exact absurd hcc hcne'
+        | cons c cs =>
+          rw [hcc] at hch
+          cases ts <;> simpa [Model.Debcon.joinNl, headP] using hch
+      rw [hfe, hl]
+      have hne2 : (Model.Debcon.joinNl (t.content :: ts.map rawLine)).isEmpty = false := by
+        have := joinNl_ne_nil' t.content (ts.map rawLine) hcne'
+        cases hj : Model.Debcon.joinNl (t.content :: ts.map rawLine) with
+        | nil => exact absurd hj this
+        | cons _ _ => rfl
+      have hsl := splitlines_value t.content ts (plain_noB _ hcpl) hcne' (fun l hl => hfacts l (by simp [hl]))
+      have htrimc : trimmed t.content = true := by
+        have hh := hbo.1.1 t (by rw [hc]; simp)
+        unfold tlineOk at hh
+        rw [hk0] at hh
+        simp only [Bool.and_eq_true] at hh
+        exact hh.1.2
+      have hst : strip t.content = t.content := strip_trimmed _ htrimc
+      have hdec0 : decodeLine t = t.content := by simp [decodeLine, hk0]
+      simp only [fromValue, String.reduceEq, if_false, if_true, Option.map_some, hne2, Bool.false_eq_true,
+        fromFormattedText, lineSeparated, hsl, fromFormattedLines, hst, expectedFV, hk, hfe, List.isEmpty_nil,
+        List.nil_append, hc, List.map_cons, hdec0]
+      rw [map_decLine_raw ts (fun l hl => hfacts l (by simp [hl])), joinNl_eq]
+  · -- the value starts on the declaration line
+    have hh : headP isSpace f.first = false := by
+      simp only [trimmed, Bool.and_eq_true, Bool.not_eq_true'] at htrim; exact htrim.1
+    have hl : lstrip (Model.Debcon.joinNl (f.first :: f.conts.map rawLine)) =
+        Model.Debcon.joinNl (f.first :: f.conts.map rawLine) := by
+      apply lstrip_of_head
+      cases hff : f.first with
+      | nil => exact absurd hff hfe
+      | cons c cs =>
+        rw [hff] at hh
+        cases hm : f.conts.map rawLine <;> simpa [Model.Debcon.joinNl, headP] using hh
+    have hne2 : (Model.Debcon.joinNl (f.first :: f.conts.map rawLine)).isEmpty = false := by
+      have := joinNl_ne_nil' f.first (f.conts.map rawLine) hfe
+      cases hj : Model.Debcon.joinNl (f.first :: f.conts.map rawLine) with
+      | nil => exact absurd hj this
+      | cons _ _ => rfl
+    have hsl := splitlines_value f.first f.conts (plain_noB _ hpl) hfe hfacts
+    have hst : strip f.first = f.first := strip_trimmed _ htrim
+    have hfie : f.first.isEmpty = false := by cases hff : f.first <;> simp_all
+    rw [hl]
+    simp only [fromValue, String.reduceEq, if_false, if_true, Option.map_some, hne2, Bool.false_eq_true,
+      fromFormattedText, lineSeparated, hsl, fromFormattedLines, hst, expectedFV, hk, hfie,
+      List.singleton_append]
+    rw [map_decLine_raw f.conts hfacts, joinNl_eq]
+
+
+/-! ### white-space lists and copyright statements -/
+
+theorem splitWsAux_sep (a b cur : Str) (c : Char) (hc : isSpace c = true) :
+    splitWsAux (a ++ c :: b) cur = splitWsAux a cur ++ splitWsAux b [] := by
+  induction a generalizing cur with
+  | nil =>
+    simp only [List.nil_append, splitWsAux, hc, if_true]
+    split <;> simp
+  | cons x xs ih =>
+    simp only [List.cons_append, splitWsAux]
+    split
+    · split
+      · exact ih []
+      · simp [ih []]
+    · exact ih (x :: cur)
+
+theorem splitWs_sep (a b : Str) (c : Char) (hc : isSpace c = true) : splitWs (a ++ c :: b) = splitWs a ++ splitWs b :=
+  splitWsAux_sep a b [] c hc
+
+theorem join_splitChar (sep : Char) (s : Str) : join [sep] (splitChar sep s) = s := by
+  induction s with
+  | nil => rfl
+  | cons c cs ih =>
+    unfold splitChar
+    split
+    · rename_i h
+      cases hs : splitChar sep cs with
+      | nil => exact absurd hs (splitChar_ne_nil sep cs)
+      | cons p ps =>
+        rw [hs] at ih
+        simp only [join1_cons2, ih, h]
+        rfl
+    · cases hs : splitChar sep cs with
+      | nil => exact absurd hs (splitChar_ne_nil sep cs)
+      | cons p ps =>
+        rw [hs] at ih
+        simp only
+        cases ps with
+        | nil => simp only [join] at ih ⊢; rw [ih]
+        | cons q qs =>
+          rw [join1_cons2] at ih ⊢
+          rw [List.cons_append, ih]
+
+theorem splitChar_no_sep (sep : Char) (s : Str) : ∀ p ∈ splitChar sep s, sep ∉ p := by
+  induction s with
+  | nil => intro p hp; simp [splitChar] at hp; subst hp; simp
+  | cons c cs ih =>
+    intro p hp
+    unfold splitChar at hp
+    split at hp
+    · simp only [List.mem_cons] at hp
+      rcases hp with rfl | hp
+      · simp
+      · exact ih p hp
+    · rename_i hc
+      cases hs : splitChar sep cs with
+      | nil => exact absurd hs (splitChar_ne_nil sep cs)
+      | cons q qs =>
+        rw [hs] at hp ih
+        simp only [List.mem_cons] at hp
+        rcases hp with rfl | hp
+        · intro hm
+          simp only [List.mem_cons] at hm
+          rcases hm with h | h
+          · exact hc h.symm
+          · exact ih q (by simp) h
+        · exact ih p (by simp [hp])
+
+structure SS (s : Str) : Prop where
+  ne : s ≠ []
+  pl : plain s = true
+  tr : trimmed s = true
+  pieces : ∀ p ∈ splitChar ' ' s, p ≠ []
+  onlySp : ∀ c ∈ s, isSpace c = true → c = ' '
+
+theorem ss_of (s : Str) (h : singleSpaced s = true) : SS s := by
+  simp only [singleSpaced, Bool.and_eq_true, Bool.not_eq_true', List.isEmpty_eq_false_iff, List.all_eq_true,
+    Bool.or_eq_true, beq_iff_eq] at h
+  obtain ⟨⟨⟨⟨h1, h2⟩, h3⟩, h4⟩, h5⟩ := h
+  refine ⟨h1, h2, h3, fun p hp => h4 p hp, fun c hc hs => ?_⟩
+  rcases h5 c hc with h | h
+  · rw [hs] at h; cases h
+  · exact h
+
+theorem mem_of_mem_splitChar (sep : Char) (s p : Str) (hp : p ∈ splitChar sep s) : ∀ c ∈ p, c ∈ s := by
+  intro c hc
+  have : c ∈ join [sep] (splitChar sep s) := mem_join_of_mem sep _ p c hp hc
+  rwa [join_splitChar] at this
+where
+  mem_join_of_mem (sep : Char) (ps : List Str) (p : Str) (c : Char) (hp : p ∈ ps) (hc : c ∈ p) : c ∈ join [sep] ps := by
+    induction ps with
+    | nil => cases hp
+    | cons q qs ih =>
+      cases qs with
+      | nil => simp only [List.mem_singleton] at hp; subst hp; simpa [join] using hc
+      | cons r rs =>
+        rw [join1_cons2]
+        rcases List.mem_cons.mp hp with rfl | hp
+        · simp [hc]
+        · simp only [List.mem_append, List.mem_cons]
+          exact Or.inr (Or.inr (ih hp))
+
+/-- single-spaced words split at white space exactly where they split at U+0020 -/
+theorem splitWs_singleSpaced (s : Str) (h : SS s) : splitWs s = splitChar ' ' s := by
+  have := splitWs_join (splitChar ' ' s) (by
+    intro w hw
+    refine ⟨h.pieces w hw, fun c hc => ?_⟩
+    cases hs : isSpace c with
+    | false => rfl
+    | true =>
+      have hcs : c ∈ s := mem_of_mem_splitChar ' ' s w hw c hc
+      have := h.onlySp c hcs hs
+      subst this
+      exact absurd hc (splitChar_no_sep ' ' s w hw))
+  rwa [join_splitChar] at this
+
+
+theorem splitWs_joinNl (ls : List Str) : splitWs (Model.Debcon.joinNl ls) = ls.flatMap splitWs := by
+  induction ls with
+  | nil => rfl
+  | cons l ls ih =>
+    cases ls with
+    | nil => simp [Model.Debcon.joinNl]
+    | cons m r =>
+      have hnl : isSpace '\n' = true := by decide
+      have e : Model.Debcon.joinNl (l :: m :: r) = l ++ '\n' :: Model.Debcon.joinNl (m :: r) := by simp [Model.Debcon.joinNl]
+      rw [e, splitWs_sep l _ '\n' hnl, ih]
+      simp
+
+theorem splitWs_lead_space (s : Str) : splitWs (' ' :: s) = splitWs s := by
+  have := splitWs_sep [] s ' ' (by decide)
+  simpa [splitWs, splitWsAux] using this
+
+/-- **white-space lists** (Files, Files-Excluded): the items of every line, in order -/
+theorem wsSep_typed (f : Field) (hk : f.kind = 1) (h : fieldOk f = true) :
+    fromValue "AnyWhiteSpaceSeparatedField" (some (Model.Debcon.joinNl (f.first :: f.conts.map rawLine))) = expectedFV f := by
+  simp only [fieldOk, hk, Bool.and_eq_true, List.all_eq_true, Bool.not_eq_true', beq_iff_eq] at h
+  obtain ⟨_, hfirst, hconts⟩ := h
+  simp only [fromValue, String.reduceEq, if_false, if_true, expectedFV, hk, splitWs_joinNl, List.flatMap_cons]
+  rw [splitWs_singleSpaced f.first (ss_of _ hfirst)]
+  congr 2
+  rw [List.flatMap_map]
+  have hall : ∀ l ∈ f.conts, splitWs (rawLine l) = splitChar ' ' l.content := by
+    intro l hl
+    obtain ⟨⟨hk0, hss⟩, _⟩ := hconts l hl
+    have hraw : rawLine l = ' ' :: l.content := by simp [rawLine, hk0]
+    rw [hraw, splitWs_lead_space, splitWs_singleSpaced _ (ss_of _ hss)]
+  clear hconts
+  generalize f.conts = cs at hall ⊢
+  induction cs with
+  | nil => rfl
+  | cons l ls ih =>
+    simp only [List.flatMap_cons]
+    rw [hall l (by simp), ih (fun x hx => hall x (by simp [hx]))]
+
+/-- **single-line fields** (Format, Upstream-Name) -/
+theorem single_typed (f : Field) (hk : f.kind = 0) (h : fieldOk f = true) :
+    fromValue "SingleLineField" (some (Model.Debcon.joinNl (f.first :: f.conts.map rawLine))) = expectedFV f := by
+  simp only [fieldOk, hk, Bool.and_eq_true, Bool.not_eq_true', List.isEmpty_eq_false_iff, List.isEmpty_iff] at h
+  obtain ⟨⟨⟨_, _⟩, htrim⟩, _, hc⟩ := h
+  simp [fromValue, expectedFV, hk, hc, Model.Debcon.joinNl, strip_trimmed _ htrim]
+
+/-- **unknown fields** are kept verbatim: first line and continuation lines as written -/
+theorem extra_typed (f : Field) (hk : f.kind = 5) (h : fieldOk f = true) :
+    lstrip (Model.Debcon.joinNl (f.first :: f.conts.map rawLine)) = expectedExtra f := by
+  simp only [fieldOk, hk, Bool.and_eq_true, Bool.not_eq_true', List.isEmpty_eq_false_iff] at h
+  obtain ⟨⟨⟨_, _⟩, htrim⟩, hne, _⟩ := h
+  have hh : headP isSpace f.first = false := by
+    simp only [trimmed, Bool.and_eq_true, Bool.not_eq_true'] at htrim; exact htrim.1
+  rw [expectedExtra, joinNl_eq]
+  apply lstrip_of_head
+  cases hff : f.first with
+  | nil => exact absurd hff hne
+  | cons c cs =>
+    rw [hff] at hh
+    cases hm : f.conts.map rawLine <;> simpa [Model.Debcon.joinNl, headP] using hh
+
+
+theorem all_congr' (l : Str) (p q : Char → Bool) (h : ∀ c ∈ l, p c = q c) : l.all p = l.all q := by
+  induction l with
+  | nil => rfl
+  | cons c cs ih => simp only [List.all_cons, h c (by simp), ih (fun x hx => h x (by simp [hx]))]
+
+theorem any_congr' (l : Str) (p q : Char → Bool) (h : ∀ c ∈ l, p c = q c) : l.any p = l.any q := by
+  induction l with
+  | nil => rfl
+  | cons c cs ih => simp only [List.any_cons, h c (by simp), ih (fun x hx => h x (by simp [hx]))]
+
+theorem ascii_table : ∀ n, n < 128 →
+    isDigitU (Char.ofNat n) = (Char.ofNat n).isDigit ∧
+    yearPunct.contains (Char.ofNat n) = ((Char.ofNat n).isDigit || Dep5.punct.contains (Char.ofNat n) || Char.ofNat n == ' ') := by
+  decide +kernel
+
+theorem ascii_char_facts {c : Char} (h : c.toNat < 128) :
+    isDigitU c = c.isDigit ∧ yearPunct.contains c = (c.isDigit || Dep5.punct.contains c || c == ' ') := by
+  have := ascii_table c.toNat h
+  rwa [Char.ofNat_toNat] at this
+
+/-- on an ASCII word without spaces, the model of `is_year_range` is the specification's year range -/
+theorem isYearRange_eq_spec (t : Str) (hascii : ∀ c ∈ t, c.toNat < 128) (hsp : ' ' ∉ t) :
+    isYearRange t = Dep5.isYearSpec t := by
+  have h1 : t.all isDigitU = t.all Char.isDigit := by
+    apply all_congr'
+    intro c hc; exact (ascii_char_facts (hascii c hc)).1
+  have h2 : t.all (yearPunct.contains ·) = t.all (fun c => isAsciiDigit c || Dep5.punct.contains c) := by
+    apply all_congr'
+    intro c hc
+    rw [(ascii_char_facts (hascii c hc)).2]
+    have : (c == ' ') = false := by
+      have : c ≠ ' ' := fun e => hsp (e ▸ hc)
+      simpa using this
+    simp [this]
+  have h3 : t.any isDigitU = t.any isAsciiDigit := by
+    apply any_congr'
+    intro c hc; exact (ascii_char_facts (hascii c hc)).1
+  unfold isYearRange Dep5.isYearSpec
+  rw [h1, h2, h3]
+  cases t with
+  | nil => rfl
+  | cons c cs =>
+    simp only [List.isEmpty_cons, Bool.not_false, Bool.true_and]
+    cases hd : (c :: cs).all Char.isDigit with
+    | false => simp
+    | true =>
+      have hall := List.all_eq_true.mp hd
+      have ha : (c :: cs).all (fun c => isAsciiDigit c || Dep5.punct.contains c) = true := by
+        rw [List.all_eq_true]; intro x hx; simp [hall x hx]
+      have hb : (c :: cs).any isAsciiDigit = true := by
+        rw [List.any_eq_true]; exact ⟨c, by simp, hall c (by simp)⟩
+      rw [ha, hb]; rfl
+
+theorem joinSp_eq (ws : List Str) : Dep5.splitStatement.joinSp ws = join [' '] ws := by
+  induction ws with
+  | nil => rfl
+  | cons w ws ih =>
+    cases ws with
+    | nil => rfl
+    | cons v vs => simp only [Dep5.splitStatement.joinSp, ih, join1_cons2]
+
+/-- **one copyright statement**: an optional leading year range, then the holder -/
+theorem statement_eq (s : Str) (h : SS s) (ha : asciiFirst s = true) :
+    statementFromValue s = Dep5.splitStatement s := by
+  have hws := splitWs_singleSpaced s h
+  have hval : join [' '] (splitWs s) = s := by rw [hws, join_splitChar]
+  unfold statementFromValue Dep5.splitStatement
+  simp only [hval]
+  cases hsc : splitChar ' ' s with
+  | nil => exact absurd hsc (splitChar_ne_nil ' ' s)
+  | cons t rest =>
+    have htne : t ≠ [] := h.pieces t (by rw [hsc]; simp)
+    have htsp : ' ' ∉ t := splitChar_no_sep ' ' s t (by rw [hsc]; simp)
+    have htns : ∀ c ∈ t, isSpace c = false := by
+      intro c hc
+      cases hs : isSpace c with
+      | false => rfl
+      | true =>
+        have hcs : c ∈ s := mem_of_mem_splitChar ' ' s t (by rw [hsc]; simp) c hc
+        have := h.onlySp c hcs hs
+        subst this
+        exact absurd hc htsp
+    have htascii : ∀ c ∈ t, c.toNat < 128 := by
+      intro c hc
+      simp only [asciiFirst, hsc, List.headD_cons, List.all_eq_true, decide_eq_true_eq] at ha
+      exact ha c hc
+    have hyr := isYearRange_eq_spec t htascii htsp
+    have hstript : strip t = t := Proofs.VersionPrint.strip_id htns
+    have hjs : join [' '] (t :: rest) = s := by rw [← hsc, join_splitChar]
+    simp only
+    cases rest with
+    | nil =>
+      have hst : s = t := by simpa [join] using hjs.symm
+      have hp : partitionChar ' ' s = (s, false, []) := by
+        rw [hst]; exact partitionChar_not_mem ' ' t htsp
+      rw [hp]
+      simp only [hst, hstript, hyr]
+      split
+      · simp [strip, lstrip, rstrip, joinSp_eq, join]
+      · rfl
+    | cons r rs =>
+      have hs2 : s = t ++ ' ' :: join [' '] (r :: rs) := by rw [← hjs, join1_cons2]
+      have hp : partitionChar ' ' s = (t, true, join [' '] (r :: rs)) := by
+        rw [hs2]; exact partitionChar_split ' ' t _ htsp
+      rw [hp]
+      simp only [hstript, hyr]
+      -- the holder is already trimmed
+      have hholder : strip (join [' '] (r :: rs)) = join [' '] (r :: rs) := by
+        have htr := h.tr
+        simp only [trimmed, Bool.and_eq_true, Bool.not_eq_true'] at htr
+        have hrne : r ≠ [] := h.pieces r (by rw [hsc]; simp)
+        have hhead : headP isSpace (join [' '] (r :: rs)) = false := by
+          cases hr : r with
+          | nil => exact absurd hr hrne
+          | cons c cs =>
+            have hcs : c ∈ s := mem_of_mem_splitChar ' ' s r (by rw [hsc]; simp) c (by rw [hr]; simp)
+            have hcsp : ' ' ∉ r := splitChar_no_sep ' ' s r (by rw [hsc]; simp)
+            have : isSpace c = false := by
+              cases hs : isSpace c with
+              | false => rfl
+              | true =>
+                have := h.onlySp c hcs hs
+                subst this
+                exact absurd (by rw [hr]; simp) hcsp
+            cases rs <;> simp [join, headP, this]
+        have hlast : lastP (fun c => !isSpace c) (join [' '] (r :: rs)) = true := by
+          have hl := htr.2
+          rw [hs2, lastP_append_cons] at hl
+          have hne2 : join [' '] (r :: rs) ≠ [] := by
+            cases hr : r with
+            | nil => exact absurd hr hrne
+            | cons c cs => cases rs <;> simp [join]
+          rw [lastP_cons_ne_nil _ _ _ hne2] at hl
+          clear hhead hp hs2
+          generalize join [' '] (r :: rs) = j at hl hne2 ⊢
+          induction j with
+          | nil => exact absurd rfl hne2
+          | cons c cs ih =>
+            cases cs with
+            | nil => simpa [lastP] using hl
+            | cons d ds => simpa [lastP] using ih (by simpa [lastP] using hl) (by simp)
+        have := strip_core [] _ [] (by simp) (by simp) hhead hlast
+        simpa using this
+      rw [hholder]
+      split
+      · simp [joinSp_eq]
+      · rfl
+
+
+theorem statement_lead_space (s : Str) : statementFromValue (' ' :: s) = statementFromValue s := by
+  unfold statementFromValue
+  rw [splitWs_lead_space]
+
+/-- **copyright fields**: one statement per line, each split into year range and holder -/
+theorem copyright_typed (f : Field) (hk : f.kind = 2) (h : fieldOk f = true) :
+    fromValue "CopyrightField" (some (Model.Debcon.joinNl (f.first :: f.conts.map rawLine))) = expectedFV f := by
+  simp only [fieldOk, hk, Bool.and_eq_true, List.all_eq_true, Bool.not_eq_true', beq_iff_eq] at h
+  obtain ⟨_, ⟨hfirst, hfa⟩, hconts⟩ := h
+  have hssf := ss_of _ hfirst
+  have htl : ∀ l ∈ f.conts, tlineOk l = true := by
+    intro l hl
+    obtain ⟨⟨⟨hk0, hss⟩, _⟩, hdot⟩ := hconts l hl
+    have hs := ss_of _ hss
+    unfold tlineOk
+    rw [hk0]
+    have hne : l.content.isEmpty = false := by cases hc : l.content <;> simp_all [hs.ne]
+    simp [hne, hs.pl, hs.tr, hdot]
+  have hfacts : ∀ l ∈ f.conts, TFacts l := fun l hl => tline_facts l (htl l hl)
+  have hv : (Model.Debcon.joinNl (f.first :: f.conts.map rawLine)).isEmpty = false := by
+    have := joinNl_ne_nil' f.first (f.conts.map rawLine) hssf.ne
+    cases hj : Model.Debcon.joinNl (f.first :: f.conts.map rawLine) with
+    | nil => exact absurd hj this
+    | cons _ _ => rfl
+  have hsl := splitlines_value f.first f.conts (plain_noB _ hssf.pl) hssf.ne hfacts
+  simp only [fromValue, String.reduceEq, if_false, if_true, expectedFV, hk, lineSeparated, hv, Bool.false_eq_true, hsl,
+    List.map_cons, List.map_map]
+  congr 2
+  · exact statement_eq f.first hssf hfa
+  · apply List.map_congr_left
+    intro l hl
+    obtain ⟨⟨⟨hk0, hss⟩, hla⟩, _⟩ := hconts l hl
+    have hraw : rawLine l = ' ' :: l.content := by simp [rawLine, hk0]
+    simp only [Function.comp, hraw, statement_lead_space]
+    exact statement_eq l.content (ss_of _ hss) hla
+
 
 end Props.C09
